@@ -160,11 +160,50 @@ def analyse(repo, rel, clsname):
     return o
 
 
+def analyse_order(repo, rel, clsname):
+    """the snapshot is stored only AFTER the distribution has been computed and stored: a recalculation that raises must leave the
+    object looking out of date (otherwise the next read silently serves the previous configuration's distribution)"""
+    name = f"{rel}:{clsname}.probability_distribution#snapshot.stored-after-computation"
+    o = dict(name=name, kind="reads", backend="ast reads pass (statement order in the recomputation branch)", ms=0)
+    try:
+        tree = ast.parse(open(os.path.join(repo, rel)).read())
+        cd = next(n for n in tree.body if isinstance(n, ast.ClassDef) and n.name == clsname)
+        getter = next(m for m in cd.body if isinstance(m, ast.FunctionDef) and m.name == "probability_distribution"
+                      and any(isinstance(d, ast.Name) and d.id == "property" for d in m.decorator_list))
+    except (OSError, SyntaxError, StopIteration) as e:
+        return dict(o, result="unknown", reason=f"structure not found: {e!r}")
+
+    def stores(st, attr):
+        return any(isinstance(t, ast.Attribute) and chain(t) and norm(chain(t), clsname) == [attr] for x in ast.walk(st) if isinstance(x, (ast.Assign, ast.AnnAssign, ast.AugAssign))
+                   for t in (x.targets if isinstance(x, ast.Assign) else [x.target]))
+    snap_at, dist_at, last_call = [], [], None
+    order = []
+    for st in ast.walk(getter):
+        if isinstance(st, ast.stmt) and not isinstance(st, (ast.If, ast.For, ast.While, ast.With, ast.Try, ast.FunctionDef)):
+            order.append(st)
+    order.sort(key=lambda n: (n.lineno, n.col_offset))
+    for k, st in enumerate(order):
+        if stores(st, "calculation_values"):
+            snap_at.append((k, st.lineno))
+        if stores(st, "probability_distribution"):
+            dist_at.append((k, st.lineno))
+    if not snap_at or not dist_at:
+        return dict(o, result="unknown", reason="the getter does not store both the snapshot and the distribution (shape not recognised)")
+    if min(k for k, _ in snap_at) < max(k for k, _ in dist_at):
+        ln = min(l for _, l in snap_at)
+        return dict(o, result="refuted", model=dict(snapshot_line=ln, distribution_line=max(l for _, l in dist_at)),
+                    note=f"the configuration snapshot is stored at line {ln}, before the distribution is computed and stored (line {max(l for _, l in dist_at)}): "
+                         "if the computation raises, the next read serves the previous distribution as if it were current")
+    return dict(o, result="proved", note=f"snapshot stored at line {snap_at[0][1]}, after the distribution (line {dist_at[-1][1]})")
+
+
 def unit(tier="quick", seed=0):
     from vf.pyvc.source import REPO
     obs = [analyse(REPO, "lightworks/emulator/simulation/sampler.py", "Sampler"),
-           analyse(REPO, "lightworks/emulator/simulation/quick_sampler.py", "QuickSampler")]
-    return dict(status="ok", obligations=obs, summary="; ".join(f"{o['name'].split(':')[1].split('.')[0]}: {o['result']}" for o in obs),
+           analyse(REPO, "lightworks/emulator/simulation/quick_sampler.py", "QuickSampler"),
+           analyse_order(REPO, "lightworks/emulator/simulation/sampler.py", "Sampler"),
+           analyse_order(REPO, "lightworks/emulator/simulation/quick_sampler.py", "QuickSampler")]
+    return dict(status="ok", obligations=obs, summary="; ".join(f"{o['name'].split(':')[1].split('#')[1]}[{o['name'].split(':')[1].split('.')[0]}]: {o['result']}" for o in obs),
                 trusted=["reads table of vf/pyvc/readsframe.py (which configuration keys determine circuit._build(), source._build_statistics(), ...)"])
 
 
